@@ -24,10 +24,10 @@
 (* the real codemod, compares the parameters it extracted with the         *)
 (* transcription, and executes both programs on sqlite3.                   *)
 (***************************************************************************)
-EXTENDS Integers, Sequences, FiniteSets, TLC
+EXTENDS Integers, Sequences, FiniteSets, TLC, SqlData     \* SqlData: ExtraQueries, longer queries sampled by the harness
 
 CONSTANTS MaxConds, MaxItems,
-          RuleVariant   \* "tree": the rule as implemented | "no-parity": quote parity ignored | "no-pushback": an end piece is never a start (non-vacuity)
+          RuleVariant   \* "tree": the rule as implemented | "no-parity": quote parity ignored | "no-pushback": an end piece is never a start | "no-reset": the parity flag is not reset after a literal ended (non-vacuity)
 
 SplitModes == {"none", "quotes", "after", "before"}
 \* what the text character of a quoted value is: a letter, or a character that is special in one of the Python
@@ -97,7 +97,7 @@ Extract(P, i, mod) ==
                 pat == IF \E m \in (i + 1)..(j - 1) : ~P[m].lit THEN <<[s |-> i, e |-> j]>> ELSE <<>>
             IN IF RuleVariant # "no-pushback" /\ IsLiteralStart(P[j], 0) /\ ~IsSingleQuote(P[j])
                THEN pat \o Extract(P, j, 0)        \* the end piece opens the next literal: it is looked at again
-               ELSE pat \o Extract(P, j + 1, 1)
+               ELSE pat \o Extract(P, j + 1, IF RuleVariant = "no-reset" THEN mod ELSE 1)
 
 Found(qy, mode) == Extract(Pieces(qy, mode), 1, 1)
 
@@ -109,7 +109,7 @@ FoundConds(qy, mode) == LET P == Pieces(qy, mode)  F == Found(qy, mode) IN {Open
 Parameterizable(qy) == {c \in 1..Len(qy) : qy[c].q /\ \E j \in 1..Len(qy[c].items) : qy[c].items[j] = "h"}
 
 VARIABLES qy, mode, tc, exp, st
-Init == /\ qy \in Queries /\ mode \in SplitModes /\ st = "init"
+Init == /\ qy \in Queries \cup ExtraQueries /\ mode \in SplitModes /\ st = "init"
         /\ tc \in (IF \E c \in 1..Len(qy) : qy[c].q /\ \E j \in 1..Len(qy[c].items) : qy[c].items[j] = "a" THEN TextChars ELSE {"a"})
         /\ exp = [found |-> {}, ideal |-> {}, pieces |-> <<>>]
 Step == /\ st = "init" /\ st' = "done" /\ UNCHANGED <<qy, mode, tc>>
